@@ -62,7 +62,10 @@ func c05Case(c *mon.Ctx, i int, record bool) {
 	var o *mon.Obj
 	var desc string
 	var isSeed bool
-	if base := len(W.Objs) + c.Pick(12000, 400000) + directedCount(c)/c.Pick(6, 1); i >= base {
+	if base := len(W.Objs) + c.Pick(12000, 400000) + directedCount(c)/c.Pick(6, 1); i >= base+c05PairCases(c) {
+		c05Long(c, i-base-c05PairCases(c))
+		return
+	} else if i >= base {
 		c05Pair(c, i-base)
 		return
 	}
@@ -383,4 +386,48 @@ func c05Pair(c *mon.Ctx, k int) {
 		name := strings.SplitN(d, ":", 2)[0]
 		c.V("history-dependent|"+name, fmt.Sprintf("lint %s on %s gives a different result right after linting %s than on its own: %s", name, ob.Name, oa.Name, clipS(d, 300)), name, map[string][]byte{"first": oa.DER, "then": ob.DER}, nil)
 	}
+}
+
+// ---- long repetitions: behaviour that depends on how often something was called ----
+
+const c05LongCases = 32
+
+// c05Long lints one object a few thousand times in a row (same parse and fresh parses alternating) and
+// requires every result to equal the first: a counter, a cache that fills up, an "every Nth call" path.
+func c05Long(c *mon.Ctx, k int) {
+	g := lint.GlobalRegistry()
+	o := W.Objs[(k*131+int(uint64(c.Seed)%97))%len(W.Objs)]
+	if k%4 == 3 {
+		o = W.Objs[FamilyStart+(k*7)%(FamilyEnd-FamilyStart)]
+	}
+	rs, pv, _ := o.Lint(g)
+	if pv != nil || rs == nil {
+		return
+	}
+	first := mon.SnapOf(rs)
+	day := today()
+	n := c.Pick(1500, 20000)
+	for r := 0; r < n; r++ {
+		t := o
+		if r%3 == 2 {
+			if t = o.Reparse(); t == nil {
+				continue
+			}
+		}
+		rs, pv, _ := t.Lint(g)
+		c.R.Count("evaluations", 1)
+		if pv != nil || rs == nil {
+			c.V("panic-after-repetition", fmt.Sprintf("linting %s panicked at repetition %d: %v", o.Name, r, pv), "", inputs(o), nil)
+			return
+		}
+		if d := dropClock(day, mon.Diff(first, mon.SnapOf(rs), false, false)); len(d) > 0 {
+			name := strings.SplitN(d[0], ":", 2)[0]
+			c.V("call-count-dependent|"+name, fmt.Sprintf("repetition %d of linting the same object differs from the first: %s (input %s)", r+2, clipS(d[0], 300), o.Name), name, inputs(o), nil)
+			return
+		}
+		if r%200 == 0 {
+			c.Tick()
+		}
+	}
+	c.R.Count("long_repetition_runs", 1)
 }
